@@ -24,6 +24,10 @@ pub enum PartKind {
     /// a directory in place of the file: open succeeds, read fails
     Directory,
     DanglingSymlink,
+    /// a named pipe fed by the harness: readable, but not a regular file
+    Fifo,
+    /// a symbolic link to the regular file holding the lines
+    SymlinkToFile,
 }
 
 /// One input stream: the next `lines` logical lines go here
@@ -56,6 +60,10 @@ pub struct PlanK {
     /// the geodesy/ resource tree sits in the user data dir ($XDG_DATA_HOME) instead of ./
     #[serde(default)]
     pub tree_in_user_dir: bool,
+    /// run kp under this limit of open file descriptors (kp reads its inputs one after
+    /// the other, so the number of file arguments must not matter)
+    #[serde(default)]
+    pub nofile_limit: Option<u16>,
 }
 
 pub struct KpSim {
@@ -269,7 +277,7 @@ impl Engine for KpSim {
                 "values printed for lines with more than four columns are not asserted (one output line, no crash)",
                 "with --roundtrip and tuples that fail in one direction kp may end with an error (count mismatch) instead of printing; the exit status is then not asserted, printed lines always are",
             ],
-            required_probes: &["batch_boundary_exact", "batch_boundary_plus_one", "empty_input", "multi_file", "stdin_used", "eintr", "short_reads", "hard_read_error", "premature_eof", "file_absent", "file_is_directory", "invalid_utf8", "invalid_operation", "roundtrip", "inverse", "sexagesimal", "overlong_line", "empty_file_argument", "resources_from_user_data_dir"],
+            required_probes: &["batch_boundary_exact", "batch_boundary_plus_one", "empty_input", "multi_file", "stdin_used", "eintr", "short_reads", "hard_read_error", "premature_eof", "file_absent", "file_is_directory", "invalid_utf8", "invalid_operation", "roundtrip", "inverse", "sexagesimal", "overlong_line", "empty_file_argument", "resources_from_user_data_dir", "fifo_argument", "symlink_to_file_argument", "low_open_file_limit"],
             exhaustive: false,
         }
     }
@@ -315,7 +323,14 @@ impl Engine for KpSim {
             }
         }
         // spreading
-        let n_parts = if rng.chance(0.5) { 1 } else { 1 + rng.below(4) };
+        let nofile_limit = if !big && rng.chance(0.02) { Some(20u16) } else { None };
+        let n_parts = if nofile_limit.is_some() {
+            30 + rng.below(40)
+        } else if rng.chance(0.5) {
+            1
+        } else {
+            1 + rng.below(4)
+        };
         let mut cuts: Vec<usize> = (0..n_parts - 1).map(|_| rng.below(n + 1)).collect();
         cuts.sort();
         let mut parts = Vec::new();
@@ -327,7 +342,15 @@ impl Engine for KpSim {
             let count = end - prev;
             prev = end;
             let mut part = Part {
-                kind: if stdin_slot == Some(k) { PartKind::Stdin } else { PartKind::File },
+                kind: if stdin_slot == Some(k) {
+                    PartKind::Stdin
+                } else if rng.chance(0.04) {
+                    PartKind::Fifo
+                } else if rng.chance(0.04) {
+                    PartKind::SymlinkToFile
+                } else {
+                    PartKind::File
+                },
                 lines: count,
                 cap: 8192,
                 steps: Vec::new(),
@@ -392,6 +415,7 @@ impl Engine for KpSim {
             lines,
             parts,
             tree_in_user_dir: rng.chance(0.25),
+            nofile_limit,
         }
     }
 
@@ -463,7 +487,7 @@ impl Engine for KpSim {
                 p.parts[k].bad_utf8_at = None;
                 out.push(p);
             }
-            if part.kind == PartKind::Stdin {
+            if matches!(part.kind, PartKind::Stdin | PartKind::Fifo | PartKind::SymlinkToFile) {
                 let mut p = plan.clone();
                 p.parts[k].kind = PartKind::File;
                 out.push(p);
@@ -486,6 +510,7 @@ impl Engine for KpSim {
         without!(crlf, false);
         without!(final_newline, true);
         without!(tree_in_user_dir, false);
+        without!(nofile_limit, None);
         if plan.op != "addone" {
             let mut p = plan.clone();
             p.op = "addone".to_string();
@@ -552,6 +577,7 @@ impl Engine for KpSim {
         let n_parts = plan.parts.len();
         let only_stdin_implicit = n_parts == 1 && plan.parts[0].kind == PartKind::Stdin && plan.lines.len() % 2 == 0;
         let mut stdin_seen = false;
+        let mut fifo_writers: Vec<(PathBuf, std::thread::JoinHandle<()>)> = Vec::new();
         for (k, part) in plan.parts.iter().enumerate() {
             let end = (next_line + part.lines).min(plan.lines.len());
             let is_last_part = k + 1 == n_parts;
@@ -583,6 +609,35 @@ impl Engine for KpSim {
                         rec.probe("empty_file_argument");
                     }
                 }
+                PartKind::SymlinkToFile => {
+                    let target = format!("data{}.txt", k);
+                    std::fs::write(dir.join(&target), &bytes).expect("write input");
+                    let _ = std::os::unix::fs::symlink(dir.join(&target), dir.join(&name));
+                    argv.push(name);
+                    rec.probe("symlink_to_file_argument");
+                }
+                PartKind::Fifo => {
+                    let path = dir.join(&name);
+                    let made = Command::new("mkfifo").arg(&path).status().map(|s| s.success()).unwrap_or(false);
+                    if made {
+                        let data = bytes.clone();
+                        let p2 = path.clone();
+                        fifo_writers.push((
+                            path.clone(),
+                            std::thread::spawn(move || {
+                                // blocks until kp (or, afterwards, the harness) opens the other end
+                                if let Ok(mut f) = std::fs::OpenOptions::new().write(true).open(&p2) {
+                                    use std::io::Write;
+                                    let _ = f.write_all(&data);
+                                }
+                            }),
+                        ));
+                        rec.probe("fifo_argument");
+                    } else {
+                        std::fs::write(&path, &bytes).expect("write input");
+                    }
+                    argv.push(name);
+                }
                 PartKind::Stdin => {
                     stdin_seen = true;
                     let p = dir.join("stdin.txt");
@@ -611,7 +666,7 @@ impl Engine for KpSim {
                 }
             }
             // the reader seam only ever sees streams that opened
-            let opened = matches!(kind, PartKind::File | PartKind::Stdin | PartKind::Directory);
+            let opened = matches!(kind, PartKind::File | PartKind::Stdin | PartKind::Directory | PartKind::Fifo | PartKind::SymlinkToFile);
             if hard_fault.is_none() {
                 match kind {
                     PartKind::Absent | PartKind::DanglingSymlink => hard_fault = Some("open"),
@@ -732,7 +787,16 @@ impl Engine for KpSim {
         });
 
         // ----- run kp -----
-        let mut cmd = Command::new(&self.kp);
+        let mut cmd = match plan.nofile_limit {
+            Some(n) => {
+                rec.probe("low_open_file_limit");
+                rec.fault("open_file_limit");
+                let mut c = Command::new("sh");
+                c.arg("-c").arg(format!("ulimit -n {}; exec \"$0\" \"$@\"", n)).arg(&self.kp);
+                c
+            }
+            None => Command::new(&self.kp),
+        };
         cmd.args(&argv)
             .current_dir(&dir)
             .env_clear()
@@ -786,6 +850,22 @@ impl Engine for KpSim {
         };
         let stdout = t_out.join().unwrap_or_default();
         let stderr = t_err.join().unwrap_or_default();
+        // writers of pipes kp never opened (it stopped earlier) are released by opening
+        // and closing the reading end ourselves
+        for (path, handle) in fifo_writers {
+            use std::os::unix::fs::OpenOptionsExt;
+            if !handle.is_finished() {
+                // hold a (non-blocking) reading end and drain it until the writer is done
+                if let Ok(mut reader) = std::fs::OpenOptions::new().read(true).custom_flags(0o4000).open(&path) {
+                    let mut sink = [0u8; 65536];
+                    while !handle.is_finished() {
+                        let _ = reader.read(&mut sink);
+                        std::thread::sleep(std::time::Duration::from_micros(200));
+                    }
+                }
+            }
+            let _ = handle.join();
+        }
         rec.event();
 
         let args_shown = argv.join(" ");
